@@ -27,7 +27,11 @@ fuzz_target!(|data: &[u8]| {
     if doc.contains("<!DOCTYPE") {
         return;
     }
-    if let XmlVerdict::Violation { sig, msg } = accepted_document_check(name, codec, "fuzz", doc) {
-        common::violation("C13", &sig, &msg);
+    common::count(0);
+    match accepted_document_check(name, codec, "fuzz", doc) {
+        XmlVerdict::Violation { sig, msg } => common::violation("C13", &sig, &msg),
+        XmlVerdict::Accepted => common::count(1),
+        XmlVerdict::Refused => common::count(2),
+        XmlVerdict::DontCare(_) => common::count(3),
     }
 });
